@@ -368,11 +368,21 @@ class Extractor:
                     elif mb[j] == '{' and d == 0:
                         break
                     j += 1
+                nm = re.search(r'^//@NAME (\w+)\n?', inv, re.M)
+                if nm:
+                    inv = inv.replace(nm.group(0), '')
+                    # ghost name for the loop's iterator: `for PAT in NAME: EXPR` (specification only)
+                    seg = mb[loop_pos[k].end():j]
+                    im = re.search(r'\bin\b', seg)
+                    if loop_pos[k].group(1) != 'for' or not im:
+                        raise ExtractError(f'fn {name}: loop {k} is not a `for .. in ..` loop')
+                    inserts.append((loop_pos[k].end() + im.end(), ' ' + nm.group(1) + ':', True))
                 inserts.append((j, inv))
                 rules.append(('E2', f'loop {k} invariant', f'{len(inv.splitlines())} lines'))
         # combine deletions and insertions
         pos = 0
-        events = sorted([(d[0], 0, d[1], d[2] if len(d) > 2 else None) for d in dels] + [(p, 1, p, inv) for p, inv in inserts])
+        events = sorted([(d[0], 0, d[1], d[2] if len(d) > 2 else None) for d in dels]
+                        + [(x[0], 2 if len(x) > 2 else 1, x[0], x[1]) for x in inserts])
         base = f['body_open']
         for a, kind_, b, inv in events:
             if a > pos:
@@ -381,6 +391,9 @@ class Extractor:
                 if inv is not None:
                     segs.append(Seg(inv))
                 pos = max(pos, b)
+            elif kind_ == 2:
+                segs.append(Seg(inv))
+                pos = max(pos, a)
             else:
                 segs.append(Seg('\n' + inv.rstrip('\n') + '\n'))
                 pos = max(pos, a)
@@ -477,9 +490,13 @@ def build_unit(template_path, repo_root, vacuity=False):
             while i < len(tl) and not tl[i].strip().startswith('//@END'):
                 m2 = DIRECTIVE.match(tl[i])
                 if m2 and m2.group(1) == 'LOOP':
-                    k = int(m2.group(2).strip())
+                    la = m2.group(2).split()
+                    k = int(la[0])
                     loops[k] = []
                     cur = loops[k]
+                    for extra in la[1:]:
+                        if extra.startswith('name='):
+                            cur.append('//@NAME ' + extra[5:])
                 elif m2:
                     raise ExtractError(f'{template_path}:{i+1}: directive inside FN block')
                 else:
